@@ -7,6 +7,7 @@ package chainfee
 
 //@ func (s SatPerKWeight) FeeForWeight
 //@   props C01
+//@   bounds-safe
 //@   requires 0 <= s && s <= 1<<40 && wu <= 1<<22
 //@   ensures result == fdiv(s * wu, 1000)
 //@   nowrap
